@@ -47,7 +47,7 @@ def corpus(ctx):
         eq = [l for l in lines if not l.split()[0] in OK_OPS]
         ok = [l for l in lines if l.split()[0] in OK_OPS]
         ctx.stream("corpus", eq)
-        ctx.stream("corpus-ok", ok, spec_mode="ok")
+        ctx.stream("corpus-ok", ok, spec_mode="ok", judge=_sqrt_judge)
 
 
 OK_OPS = {"sqrt"}
@@ -236,12 +236,22 @@ def c11(ctx):
 
 
 # --------------------------------------------------------------------------- C12
+def _sqrt_judge(line, answer):
+    t = line.split()
+    if t[0] != "sqrt" or "@" not in answer:
+        return None
+    tok = answer.split("@")[0]
+    if tok.startswith("X:"):
+        tok = "X0:" + tok[2:]
+    return "jsqrt %s %s %s" % (t[1], t[2], tok)
+
+
 def c12(ctx):
     start(ctx)
     rng = random.Random(ctx.seed)
     small = tiers(ctx, gen.SMALL_QUICK, gen.SMALL_THOROUGH)
-    ctx.stream("exh-small", gen.exh_unary(["sqrt"], small), spec_mode="ok", exhaustive=True, nontrivial=lambda t: t == "n")
-    ctx.stream("real", gen.sqrt_real(rng, tiers(ctx, 4000, 60000)), spec_mode="ok", nontrivial=lambda t: t == "n", chunk_timeout=600)
+    ctx.stream("exh-small", gen.exh_unary(["sqrt"], small), spec_mode="ok", exhaustive=True, nontrivial=lambda t: t == "n", judge=_sqrt_judge)
+    ctx.stream("real", gen.sqrt_real(rng, tiers(ctx, 4000, 60000)), spec_mode="ok", nontrivial=lambda t: t == "n", chunk_timeout=600, judge=_sqrt_judge)
     return done(ctx)
 
 
@@ -446,7 +456,7 @@ def c18(ctx):
     start(ctx)
     rng = random.Random(ctx.seed)
     fm = tiers(ctx, gen.TRANS_FMTS_Q, gen.TRANS_FMTS_T)
-    lines = corpus_lines("C18", {"pow", "powi"}) + gen.pow_lines(rng, fm, tiers(ctx, 8, 50))
+    lines = corpus_lines("C18", {"pow", "powi"}) + gen.pow_lines(rng, fm, tiers(ctx, 8, 50)) + gen.pow_large_lines(rng, fm + [(11, 24), (12, 30)], tiers(ctx, 60, 600))
     impl, _ = ctx.stream("pow-powi", lines, nontrivial=lambda t: t in ("n", "-"), chunk_timeout=1800, per_line_timeout=tiers(ctx, 20, 120))
     for ln, im in zip(lines, impl):
         t = ln.split()
